@@ -49,6 +49,30 @@ type c02Case struct {
 	AggHost     vpRefHost `json:"agg_host"`
 	SendTop     int       `json:"send_top"` // StringTopCountSend
 	Seed        uint64    `json:"seed"`
+	// unique events too large to spell out: N values of a seeded stream (thinned sets need > 65536 distinct values)
+	URanges []c02URange `json:"uranges,omitempty"`
+}
+
+type c02URange struct {
+	Top   vpRefHost `json:"top"`
+	Host  vpRefHost `json:"host"`
+	Seed  uint64    `json:"seed"`
+	Start uint64    `json:"start"`
+	N     uint64    `json:"n"`
+	Count float64   `json:"count,omitempty"` // explicit counter of the event, 0 = not given
+}
+
+// c02AllEvents: the spelled-out events followed by the expanded range events.
+func c02AllEvents(c *c02Case) []c02Ev {
+	evs := append([]c02Ev(nil), c.Events...)
+	for _, r := range c.URanges {
+		e := c02Ev{Top: r.Top, Ev: vpRefEvent{Kind: vpRefKindUnique, Host: r.Host, Count: r.Count}}
+		for i := uint64(0); i < r.N; i++ {
+			e.Ev.Uniq = append(e.Ev.Uniq, int64(vpRefSplitMix(r.Seed, r.Start+i)>>24)) // 40-bit values
+		}
+		evs = append(evs, e)
+	}
+	return evs
 }
 
 type c02Centroid struct {
@@ -150,14 +174,15 @@ func c02Run(t vpT, c c02Case, info *c02Info) {
 	refs := map[TagUnion]*vpRefAgg{}
 	refTail := vpRefNew()
 	var evPtrs []*vpRefEvent
-	for i := range c.Events {
-		ev := &c.Events[i].Ev
+	allEvents := c02AllEvents(&c)
+	for i := range allEvents {
+		ev := &allEvents[i].Ev
 		_, count := ev.totals()
 		if count <= 0 {
 			continue
 		}
 		evPtrs = append(evPtrs, ev)
-		top := c.Events[i].Top.TU()
+		top := allEvents[i].Top.TU()
 		mv := item.MapStringTop(rng, DefaultStringTopCapacity, top, count)
 		vpRefApplyReal(mv, rng, ev, c.Percentiles, c.Legacy)
 		r := refTail
@@ -370,21 +395,30 @@ func c02Compare(t vpT, c c02Case, info *c02Info, where string, sent, got *MultiV
 	if len(ref.Hashes) != 0 {
 		info.cls("uniques")
 	}
-	_, sentH, ok1 := vpRefSketchWire(sent.HLL.MarshallAppend(nil))
+	sentSkip, sentH, ok1 := vpRefSketchWire(sent.HLL.MarshallAppend(nil))
 	gotSkip, gotH, ok2 := vpRefSketchWire(got.HLL.MarshallAppend(nil))
 	if !ok1 || !ok2 {
 		t.Fatalf("%s: cannot parse marshalled sketch", where)
 	}
+	// canonical state of the set of hashes the events wrote: thinned (skip degree >= 1) above 65536 hashes
 	wantSkip, wantItems := vpRefSketchOfSet(ref.Hashes)
+	wantSize := vpRefSketchSize(wantSkip, wantItems)
 	if wantSkip != 0 {
-		t.Fatalf("bad case: unique set too large for C02")
+		info.cls("unique-thinned-set")
 	}
-	if len(gotH) != wantItems || got.HLL.ItemsCount() != wantItems || gotSkip != 0 || got.HLL.Size(true) != uint64(wantItems) || got.HLL.Size(false) != uint64(wantItems) {
-		t.Fatalf("%s: unique set: aggregator has %d hashes (ItemsCount %d, Size %d, skip %d), events have %d distinct", where,
-			len(gotH), got.HLL.ItemsCount(), got.HLL.Size(false), gotSkip, wantItems)
+	if sentSkip != wantSkip || len(sentH) != wantItems {
+		t.Fatalf("%s: sender sketch: skip degree %d with %d hashes, events (%d distinct hashes) give skip degree %d with %d hashes", where,
+			sentSkip, len(sentH), len(ref.Hashes), wantSkip, wantItems)
 	}
+	if gotSkip != wantSkip || len(gotH) != wantItems || got.HLL.ItemsCount() != wantItems ||
+		got.HLL.Size(true) != uint64(wantItems)<<wantSkip || got.HLL.Size(false) != wantSize {
+		t.Fatalf("%s: unique set: aggregator state has skip degree %d, %d hashes (ItemsCount %d), estimate %d (raw %d); the agent sent skip degree %d, %d hashes, estimate %d (raw %d) for %d distinct values", where,
+			gotSkip, len(gotH), got.HLL.ItemsCount(), got.HLL.Size(false), got.HLL.Size(true),
+			sentSkip, len(sentH), wantSize, uint64(wantItems)<<wantSkip, len(ref.Hashes))
+	}
+	mask := uint32(1)<<wantSkip - 1
 	for i, h := range gotH {
-		if _, ok := ref.Hashes[h]; !ok || sentH[i] != h {
+		if _, ok := ref.Hashes[h]; !ok || sentH[i] != h || h&mask != 0 {
 			t.Fatalf("%s: unique set differs at %d: aggregator %d sender %d", where, i, h, sentH[i])
 		}
 	}
